@@ -30,6 +30,14 @@ pub trait AdFrame: Frame + Debug + 'static {
     fn select(self, other: Self) -> Self;
     fn bits(&self) -> u64;
     fn sample_bits(s: Self::Sample) -> u64;
+    /// Channels converted to f64 with the sample conversion (`to_sample::<f64>()`).
+    fn to_f64s(self) -> Vec<f64>;
+    /// Frame from f64 channel values with the sample conversion (`to_sample::<S>()`).
+    fn from_f64s(v: &[f64]) -> Self;
+    /// One least significant step of the sample format expressed in its f64 conversion
+    /// (0.0 for float formats).
+    fn lsb_f64() -> f64;
+    const IS_FLOAT: bool;
 }
 
 pub fn leaf_val(id: u32, idx: u64, ch: usize) -> f64 {
@@ -113,6 +121,20 @@ macro_rules! ad_frame {
             fn sample_bits(s: $S) -> u64 {
                 s.to_sample::<f64>().to_bits()
             }
+            fn to_f64s(self) -> Vec<f64> {
+                self.channels().map(|s| s.to_sample::<f64>()).collect()
+            }
+            fn from_f64s(v: &[f64]) -> Self {
+                <$T as Frame>::from_fn(|ch| v[ch].to_sample::<$S>())
+            }
+            fn lsb_f64() -> f64 {
+                if Self::IS_FLOAT {
+                    0.0
+                } else {
+                    2.0 / 2f64.powi(8 * core::mem::size_of::<$S>() as i32)
+                }
+            }
+            const IS_FLOAT: bool = $name.as_bytes()[0] == b'f' || ($name.as_bytes()[0] == b'[' && $name.as_bytes()[1] == b'f');
         }
     };
 }
@@ -126,3 +148,7 @@ ad_frame!("[i32;1]", [i32; 1], i32);
 ad_frame!("[f64;8]", [f64; 8], f64);
 ad_frame!("[u16;32]", [u16; 32], u16);
 ad_frame!("[i16;8]", [i16; 8], i16);
+ad_frame!("i16", i16, i16);
+ad_frame!("u8", u8, u8);
+ad_frame!("i64", i64, i64);
+ad_frame!("[i32;2]", [i32; 2], i32);
